@@ -110,6 +110,22 @@ def gen(seed, tier):
     out.append("ravel a0:")
     out.append("atleast a0: z2")
     out.append("atleast a0: z3")
+    # zero-size arrays: a named axis may be removed only when its length is one — an element count of 0 before and
+    # after must not hide a removed axis of length 0, 2, 3.. (seeded change C07l: the check was left to reshape)
+    for sh in ([0], [0, 3], [2, 0], [1, 0, 4], [0, 1], [1, 0], [0, 1, 1], [2, 0, 1], [0, 0], [1, 0, 1], [3, 1, 0], [0, 2, 1, 1]):
+        n = len(sh)
+        a = arr(sh)
+        for x in range(-n - 1, n + 1):
+            out.append(f"squeeze {a} {lst([x])}")
+            out.append(f"expand_dims {a} {lst([x])}")
+        for x, y in itertools.product(range(-n, n), repeat=2):
+            out.append(f"squeeze {a} {lst([x, y])}")
+        out.append(f"squeeze {a} n")
+        out.append(f"ravel {a}")
+        for k in range(5):
+            out.append(f"atleast {a} {z(k)}")
+        for t in ([0], [0, 2], [3, 0], [1, 0, 1], [], [1], [0, 0]):
+            out.append(f"reshape {a} {lst(t)}")
     if tier == "thorough":
         for _ in range(400):
             sh = rand_shape(rng, 4, (1, 1, 2, 3, 4, 5))
